@@ -174,6 +174,8 @@ inductive Op
   | exit (panic : Bool)          -- `})` — by return (`false`) or by a panic unwinding through the frame (`true`)
   | emit (c : Call)              -- a macro call
   | setGlobal (r : RecId)        -- `set_global_recorder(r)`
+  | keepRef                      -- `kept = with_recorder(|r| r)`: keep the `&dyn Recorder` beyond the call
+  | dupGuard (g : GuardId)       -- `let g' = g.clone()` / using `g` again after it was moved (a second guard VALUE)
   deriving DecidableEq, Repr
 
 inductive Out
@@ -271,6 +273,11 @@ def step (s : St) (t : Tid) (op : Op) : St × Out :=
     match s.global with
     | none => ({ s with global := some r }, .ok)
     | some _ => (s, .err)
+  -- `with_recorder<T>(f: impl FnOnce(&dyn Recorder) -> T) -> T`: the reference is valid for the call only (higher-
+  -- ranked lifetime), `T` cannot mention it
+  | .keepRef => (s, .rejected)
+  -- `LocalRecorderGuard` is neither `Clone` nor `Copy`: a guard is ONE value, its destructor runs at most once
+  | .dupGuard _ => (s, .rejected)
 
 def run (s : St) (ops : List (Tid × Op)) : St := ops.foldl (fun s o => (step s o.1 o.2).1) s
 
@@ -323,6 +330,44 @@ def compile (t : Tid) : Prog → List (Tid × Op)
   | .emit c rest => (t, .emit c) :: compile t rest
   | .withLocal r body rest => (t, .enter r) :: (compile t body ++ (t, .exit body.panics) :: compile t rest)
   | .panic => []
+
+/-! ## what the call site gets back (macros.rs: the value of `with_recorder(|recorder| recorder.register_*(..))`) -/
+
+/-- the recorder whose `register_*` made the handle the macro call evaluates to: `with_recorder` returns what its
+    closure returns, the closure returns what the dispatched recorder returns (`describe_*` forms evaluate to `()`) -/
+def handleOf (e : Emission) : Option Target :=
+  match e.call with
+  | .reg _ => some e.target
+  | .desc _ => none
+
+/-! ## closure programs with "record on drop" locals -/
+
+/-- `Prog` plus `defer c`: `let _d = EmitOnDrop(c);` — a local of the enclosing body whose destructor makes the macro
+    call `c`.  Rust drops the locals of a body newest first when the body is left, by return or by a panic unwinding
+    it, and BEFORE the caller's locals (the `_local` guard of `with_local_recorder`, declared before `f()` is called) -/
+inductive ProgD
+  | done
+  | emit (c : Call) (rest : ProgD)
+  | defer (c : Call) (rest : ProgD)
+  | withLocal (r : RecId) (body : ProgD) (rest : ProgD)
+  | panic
+  deriving Repr
+
+/-- the pending destructors of a body that is being left, newest first, then how it is left -/
+def flush : List Call → Prog → Prog
+  | [], k => k
+  | c :: cs, k => .emit c (flush cs k)
+
+/-- destructors made explicit: `pend` = the `defer`s of the current body seen so far, newest first.  Leaving the body
+    (`done`, or `panic` — the rest of the body is skipped) runs them; a nested closure has its own list -/
+def lower (pend : List Call) : ProgD → Prog
+  | .done => flush pend .done
+  | .panic => flush pend .panic
+  | .emit c rest => .emit c (lower pend rest)
+  | .defer c rest => lower (c :: pend) rest
+  | .withLocal r body rest => .withLocal r (lower [] body) (lower pend rest)
+
+def compileD (t : Tid) (p : ProgD) : List (Tid × Op) := compile t (lower [] p)
 
 /-! ## the compiled macro-form table of the harness (harness/src/c01.rs `forms()`, same order) -/
 
